@@ -8,7 +8,7 @@ import common as C
 from props import c01, c05
 
 ID = "C06"
-COQ_TARGETS = ["Properties/C06.vo"]
+COQ_TARGETS = ["Properties/C06.vo", "GenFacts/EvalSrcFacts.vo"]
 MODEL_TARGETS = ["Model/Exec.vo"]
 IMPORTS = "From Ka Require Import Model.Exec.\nOpen Scope string_scope.\n"
 
